@@ -281,3 +281,12 @@ def r6_no_extra_skip(ctx):
 
 
 RULES.append(('R6', r6_no_extra_skip))
+
+
+def r7_stateless(ctx):
+    """R7 literal readers carry no state from one capture of the line to the next (shared rule, scv/common.py)"""
+    from ..common import reader_stateless
+    reader_stateless(ctx, 'R7', None)
+
+
+RULES.append(('R7', r7_stateless))
